@@ -185,6 +185,116 @@ Definition status_after_handshake (r : rn_hs_result) : rn_status :=
   if hs_confirmed r then NTransferring else NStandby.
 
 (* ------------------------------------------------------------------------------- *)
+(* 2b. The handshake with its line framing.  Every line is "#TYP:payload" + a terminator:
+       "\n", or "!\n" for an end that reads with the Windows line reader (which keeps only the
+       protocol's letters and stops at '!').  The relay keeps two facts that decide which
+       reader it uses and which terminator it writes: tunnelConnected (false when a handshake
+       starts, see section 3b) and clientIsWindows (set from the ACT's newline field, NEVER
+       reset: it survives from one transfer to the next).  handshake() in order:
+         recvAction (reader: recvStringFromClient) - tunnelConnected, clientIsWindows := ACT -
+         sendAction - [refused?] - recvConfig (reader: recvStringFromServer) - sendConfig;
+       any failure: FAIL to the client, then FAIL to the server, with the facts as they are
+       at that moment. *)
+
+Inductive rn_read := RdOk | RdGarbled | RdBlocked.
+
+(* a line framed Windows-style ("...!\n") or plainly ("...\n"), read by the Windows reader
+   or by readLine: the plain reader keeps the '!' (the base64 payload no longer decodes), the
+   Windows reader waits for a '!' that never comes (the relay reads without a timeout) *)
+Definition rn_read_line (reader_win framed_win : bool) : rn_read :=
+  match reader_win, framed_win with
+  | true, true | false, false => RdOk
+  | false, true => RdGarbled
+  | true, false => RdBlocked
+  end.
+
+(* a line as its sender made it: its framing, and its payload decoded (None = not a
+   decodable payload of the expected type) *)
+Record rn_line (A : Type) := mkRnLine { ln_win : bool; ln_body : option A }.
+Arguments mkRnLine {A}. Arguments ln_win {A}. Arguments ln_body {A}.
+
+Inductive rn_out_msg := OAct (w : n_wire_action) | OCfg (w : n_wire_config) | OFail.
+
+Record rn_hs2 := mkHs2 {
+  h2_to_server : list (rn_out_msg * rn_str);   (* what the relay itself sent, with the terminator used *)
+  h2_to_client : list (rn_out_msg * rn_str);
+  h2_status : rn_status;                       (* NHandshaking: the goroutine is still waiting for a line *)
+  h2_cli_win : bool }.                         (* r.clientIsWindows afterwards *)
+
+(* sendStringToClient / sendStringToServer / recvStringFromClient / recvStringFromServer *)
+Definition rn_nl_to_client (e : rn_env) (cli_win tunnel : bool) : rn_str :=
+  if (cli_win || ne_win_server e) && negb tunnel then relayneg_to_client_win_nl else relayneg_to_client_nl.
+Definition rn_nl_to_server (e : rn_env) (tunnel is_act : bool) : rn_str :=
+  if ne_win_server e && (negb tunnel || is_act) then relayneg_to_server_win_nl else relayneg_to_server_nl.
+Definition rn_reader_from_client (e : rn_env) (tunnel : bool) : bool := ne_win_server e && negb tunnel.
+Definition rn_reader_from_server (e : rn_env) (cli_win tunnel : bool) : bool :=
+  (cli_win || ne_win_server e) && negb tunnel.
+
+Definition rn_hs2_fail (e : rn_env) (cli_win tunnel : bool) (sent : list (rn_out_msg * rn_str)) : rn_hs2 :=
+  mkHs2 (sent ++ [(OFail, rn_nl_to_server e tunnel false)]) [(OFail, rn_nl_to_client e cli_win tunnel)] NStandby cli_win.
+
+Definition rn_handshake2 (e : rn_env) (cli_win0 : bool) (act : rn_line n_wire_action)
+                         (cfg : option (rn_line n_wire_config)) : rn_hs2 :=
+  match rn_read_line (rn_reader_from_client e false) (ln_win act) with
+  | RdBlocked => mkHs2 [] [] NHandshaking cli_win0
+  | RdGarbled => rn_hs2_fail e cli_win0 false []
+  | RdOk =>
+    match ln_body act with
+    | None => rn_hs2_fail e cli_win0 false []
+    | Some wa =>
+      let a := rewrite_action (decode_action_into relay_action_init wa) in
+      let tun := na_tunnel a in
+      let cw := list_eqb (na_newline a) relayneg_client_win_newline in
+      let sent := [(OAct (encode_action a), rn_nl_to_server e tun true)] in
+      if negb (na_confirm a) then mkHs2 sent [] NStandby cw else
+      match cfg with
+      | None => mkHs2 sent [] NHandshaking cw
+      | Some cl =>
+        match rn_read_line (rn_reader_from_server e cw tun) (ln_win cl) with
+        | RdBlocked => mkHs2 sent [] NHandshaking cw
+        | RdGarbled => rn_hs2_fail e cw tun sent
+        | RdOk =>
+          match ln_body cl with
+          | None => rn_hs2_fail e cw tun sent
+          | Some wc =>
+            match relay_config e tun wc with
+            | None => rn_hs2_fail e cw tun sent
+            | Some wc' => mkHs2 sent [(OCfg wc', rn_nl_to_client e cw tun)] NTransferring cw
+            end
+          end
+        end
+      end
+    end
+  end.
+
+(* The Go client as far as framing goes (transfer.go sendAction / recvLine): it frames for
+   Windows iff there is no tunnel and it runs on Windows or talks to a Windows server; then it
+   announces "newline":"!\n", offers no binary mode, and reads with the Windows reader.  Its
+   ACT line itself is "!\n"-terminated exactly for a Windows server (the tunnel's "\n" is
+   set only after the ACT has gone out). *)
+Record rn_client := mkRnClient { cl_env_win : bool; cl_remote_win : bool; cl_tunnel : bool }.
+
+Definition rn_client_windows (c : rn_client) : bool :=
+  negb (cl_tunnel c) && (cl_env_win c || cl_remote_win c).
+
+Definition rn_client_action (c : rn_client) (confirm : bool) (protocol : Z) (lang version : rn_str) : n_wire_action :=
+  mkNWA (Some lang) (Some version) (Some confirm)
+        (Some (if rn_client_windows c then relayneg_client_act_win_nl else relayneg_client_act_nl))
+        (Some protocol) (Some (negb (rn_client_windows c))) (Some true) (Some (cl_tunnel c)) (Some (cl_tunnel c)).
+
+Definition rn_client_act_line (c : rn_client) (wa : n_wire_action) : rn_line n_wire_action :=
+  mkRnLine (cl_remote_win c) (Some wa).
+
+(* the terminator the client's reader needs *)
+Definition rn_client_terminator (c : rn_client) : rn_str :=
+  if rn_client_windows c then relayneg_client_line_win_nl else relayneg_client_cfg_newline.
+
+(* The Go server (transfer.go recvAction / sendString): every line it writes ends with the
+   newline field of the ACT it received *)
+Definition rn_server_line {A} (a : n_action) (body : option A) : rn_line A :=
+  mkRnLine (list_eqb (na_newline a) relayneg_client_win_newline) body.
+
+(* ------------------------------------------------------------------------------- *)
 (* 3. The status automaton of wrapInput / wrapOutput (main channel, no tunnel relay).
       One event per chunk read; the handshake goroutine's end is an event of its own. *)
 
